@@ -37,7 +37,11 @@ def stateS (want : List String) (g : Graph) (nlines : List (String × Nat)) : Se
   let hints := if want.contains "hints" then Sexp.list (.atom "hints" :: keys.map fun k =>
       .list [.str k, exceptS (fun hs => Sexp.list (.atom "ok" :: hs.map fun (h : Hints.Hint) => .list [.str h.1, natS h.2])) (Hints.inlayHints g k)])
     else .list [.atom "hints", .atom "skipped"]
-  .list [.atom "state", arena, keysS, titles, md, brefs, irefs, ranges, atS, metas, paths, spaths, hints]
+  let completions := if want.contains "completions" then Sexp.list (.atom "completions" :: keys.map fun asker =>
+      .list (.str asker :: (sortKeys ((Completion.linkCompletions g asker).map fun it =>
+        it.label ++ "\n" ++ it.sortText ++ "\n" ++ it.insertText ++ "\n" ++ it.filterText)).map Sexp.str))
+    else .list [.atom "completions", .atom "skipped"]
+  .list [.atom "state", arena, keysS, titles, md, brefs, irefs, ranges, atS, metas, paths, spaths, hints, completions]
 
 def entry? : Sexp → Except String (String × Nat × Document)
   | .list [.str k, n, d] => do return (k, ← nat? n, ← document? d)
